@@ -226,6 +226,9 @@ Callback(s, self, has, id, r, cache) ==
     [] k = "OnChannelCompleted" ->
          IF s.args.err # "" THEN (IF r.status \in {"Failing","Failed"} THEN Out0(cache) ELSE [Out0(cache) EXCEPT !.evs = << <<"Error", "err">> >>])
          ELSE IF id.initiator = self THEN [Out0(cache) EXCEPT !.evs = << <<"FinishTransfer", 0>> >>]
+         \* a responder whose channel already failed or was cancelled (e.g. by the late error of a superseded transport request)
+         \* does not tell the initiator that the transfer completed
+         ELSE IF r.status \in {"Failing","Failed","Cancelling","Cancelled"} THEN Out0(cache)
          ELSE LET mm == Resp("Complete", id.tid, TRUE, r.reqFin, "") IN
               IF SendOK(s, 1) THEN [Out0(cache) EXCEPT !.net = << Send(id.initiator, mm, TRUE) >>,
                                       !.evs = << <<IF r.reqFin THEN "BeginFinalizing" ELSE "Complete", 0>> >>]
